@@ -215,8 +215,6 @@ Definition accounted : list acct := [
   mkacct "ach.trimSpacesFromLongLine" "s[:lineLength]" "model:trim_long_ok - called only when the rune count exceeds 94";
   mkacct "ach.Reader.parseLine" "r.line[:1]" "model:parse_line_total - every line given to parseLine has at least 53 bytes (read_line_other_total, read_line_first_total)";
   mkacct "ach.Reader.parseLine" "r.line[:2]" "model:parse_line_total - every line given to parseLine has at least 53 bytes (read_line_other_total, read_line_first_total)";
-  mkacct "ach.Reader.parseBH" "r.line[50:53]" "model:parse_line_total";
-  mkacct "ach.Reader.parseBH" "r.line[04:20]" "model:parse_line_total";
   mkacct "ach.Reader.parseEDAddenda" "r.currentBatch.GetHeader().CompanyName" "search-only: optional sub-record dereferenced without a syntactically dominating nil test (constructor / reader invariants are not modelled)";
   mkacct "ach.Reader.parseEntryDetail" "r.currentBatch.GetHeader().StandardEntryClassCode" "search-only: optional sub-record dereferenced without a syntactically dominating nil test (constructor / reader invariants are not modelled)";
   mkacct "ach.Reader.parseAddenda" "r.currentBatch.GetHeader().StandardEntryClassCode" "search-only: optional sub-record dereferenced without a syntactically dominating nil test (constructor / reader invariants are not modelled)";
@@ -294,9 +292,7 @@ Definition model_sites : list msite := [
   mkmsite "ach.BatchSHR.Validate" (Some 2) (Some 4) [];
   mkmsite "ach.trimSpacesFromLongLine" None (Some 94) [];
   mkmsite "ach.Reader.parseLine" None (Some 1) [];
-  mkmsite "ach.Reader.parseLine" None (Some 2) [];
-  mkmsite "ach.Reader.parseBH" (Some 50) (Some 53) [];
-  mkmsite "ach.Reader.parseBH" (Some 4) (Some 20) []
+  mkmsite "ach.Reader.parseLine" None (Some 2) []
 ].
 
 (* functions that must not contain any slice / index at all, because the model has none there:
